@@ -1,3 +1,4 @@
+pub mod history;
 pub mod oneshot;
 
 use crate::engine::{Property, Stats};
@@ -9,7 +10,9 @@ use std::collections::BTreeSet;
 use std::path::Path;
 
 pub fn all() -> Vec<Box<dyn Property>> {
-    oneshot::all()
+    let mut v = oneshot::all();
+    v.extend(history::all());
+    v
 }
 
 /// Everything an oracle over one invocation needs.
